@@ -56,6 +56,10 @@ NO_FLOOD = 1 << 4
 FLOOD_FRAME_TYPE = 0x88b5          # experimental ethertype of the test frame
 
 
+class SimError(Exception):
+  """the simulator itself is stuck / inconsistent: machinery, never a verdict"""
+
+
 class Horizon(Exception):
   """raised by the select shim when the next timer lies beyond the target"""
 
@@ -206,9 +210,9 @@ class Net(object):
     discmod.launch(**kw)
     self.disc = core.components["openflow_discovery"]
     stmod.launch()
-    self.disc.addListenerByName("LinkEvent", self._on_link_event)
+    self.disc.addListenerByName("LinkEvent", self._on_link_event, priority=1000000)
     if not self.disc._eventMixin_handlers.get(discmod.LinkEvent):
-      raise RuntimeError("spanning_tree did not attach to discovery")
+      raise SimError("spanning_tree did not attach to discovery")
 
   def _on_link_event(self, e):
     l = e.link
@@ -237,7 +241,7 @@ class Net(object):
         busy = True
       if not busy:
         return
-    raise RuntimeError("netsim did not settle")
+    raise SimError("netsim did not settle")
 
   def advance(self, d):
     """let virtual time pass; timers fire at their exact virtual times"""
@@ -250,7 +254,7 @@ class Net(object):
         if not self.sched._ready:
           break
     else:
-      raise RuntimeError("advance: too many timer steps")
+      raise SimError("advance: too many timer steps")
     self._settle()
     clock.now = self._target
 
@@ -281,7 +285,7 @@ class Net(object):
       if not again:
         return moved
       moved = True
-    raise RuntimeError("pump did not reach quiescence")
+    raise SimError("pump did not reach quiescence")
 
   def _deliver(self, d, p, fr):
     dst = None
@@ -305,7 +309,7 @@ class Net(object):
   def switch_up(self, dpid):
     n = self.nodes[dpid]
     if n.con is not None:
-      raise RuntimeError("already connected")
+      raise SimError("already connected")
     n.worker = IOWorker()
     n.worker.socket = SwSock()
     ofc = swmod.OFConnection(n.worker)
@@ -314,7 +318,7 @@ class Net(object):
     n.con = of_01.Connection(n.sock)
     self._settle()
     if self.nexus.getConnection(dpid) is not n.con or n.con.connect_time is None:
-      raise RuntimeError("handshake did not complete for %x" % dpid)
+      raise SimError("handshake did not complete for %x" % dpid)
     # what a learning/forwarding component would do with unknown traffic:
     # flood it.  Installed directly (not under test here); LLDP has priority.
     te = ftmod.TableEntry(priority=1, match=of.ofp_match(),
@@ -324,7 +328,7 @@ class Net(object):
   def switch_down(self, dpid):
     n = self.nodes[dpid]
     if n.con is None:
-      raise RuntimeError("not connected")
+      raise SimError("not connected")
     n.sock.eof = True
     con = n.con
     if con.read() is False:           # what the of_01 loop does on EOF
